@@ -76,6 +76,7 @@ type History struct {
 	Universe []Series `json:"universe"`
 	Ops      []Op     `json:"ops"`
 	WithDel  bool     `json:"with_del"`
+	PruneM   string   `json:"prune_m,omitempty"` // measurement laid out for the series-by-series pruning of ANDs
 }
 
 var hostileMeasurements = []string{
@@ -187,6 +188,10 @@ func genUniverse(r *rand.Rand, big bool) []Series {
 func genHistory(r *rand.Rand, id int, bloom, compress bool, nPred int) *History {
 	big := r.IntN(4) == 0
 	h := &History{ID: id, Bloom: bloom, Compress: compress, Universe: genUniverse(r, big), WithDel: r.IntN(3) == 0}
+	if r.IntN(3) != 0 {
+		h.PruneM = pick(r, []string{"prune", "pr une", "pr,une", "prüne"})
+		h.Universe = append(h.Universe, pruneSeries(r, h.PruneM)...)
+	}
 	order := r.Perm(len(h.Universe))
 	var done []int
 	pos := 0
@@ -278,6 +283,86 @@ func genHistory(r *rand.Rand, id int, bloom, compress bool, nPred int) *History 
 		}
 	}
 	return h
+}
+
+// pruneSeries lays out one measurement for the index's series-by-series pruning of an AND
+// of tag filters (taken when a filter's remembered cost exceeds ten times the current
+// candidate set): tag region shares the literal prefix "abc" for most series, a few values
+// merely contain it or differ in case, a few series lack the tag; tag host selects 2-4
+// series per value, and every host group mixes the kinds; tag dc splits the lot in two.
+func pruneSeries(r *rand.Rand, m string) []Series {
+	n := 66 + r.IntN(12)
+	nHosts := n / 3
+	var out []Series
+	for i := 0; i < n; i++ {
+		s := Series{M: m}
+		var region string
+		switch {
+		case i%11 == 3:
+			region = "" // lacks the tag
+		case i%11 == 7:
+			region = pick(r, []string{"zzabc", "xabcx", "zzabc-1", "ABC-1", "ab", "bc-abc"})
+		case i%17 == 0:
+			region = "abc"
+		default:
+			region = fmt.Sprintf("abc-%02d", i%50)
+		}
+		s.Tags = append(s.Tags, Tag{"dc", pick(r, []string{"east", "west"})})
+		s.Tags = append(s.Tags, Tag{"host", fmt.Sprintf("h%02d", i%nHosts)})
+		if region != "" {
+			s.Tags = append(s.Tags, Tag{"region", region})
+		}
+		s.Tags = append(s.Tags, Tag{"seq", fmt.Sprintf("%04d", i)})
+		out = append(out, s)
+	}
+	return out
+}
+
+// genAnchoredAnd: a pure AND of 2-3 comparisons, one of them a regexp that starts with
+// an anchored literal (for the PromQL flavour the anchoring comes from the language, so
+// the pattern itself starts with the literal).
+func genAnchoredAnd(r *rand.Rand, v *mstView, prom bool) ([]Leaf, *Pred) {
+	hosts := v.Vals["host"]
+	host := "h00"
+	if len(hosts) > 0 {
+		host = pick(r, hosts)
+	}
+	var pat string
+	if prom {
+		pat = pick(r, []string{"abc.*", "abc-1.", "abc-.5", "abc(-[0-9]+)?", "zz.*", "abc-[0-4].*"})
+	} else {
+		pat = pick(r, []string{"^abc", "^abc-1", "^abc-.5$", "^abc.*[0-9]$", "^zz", "^abc$", "^abc-[0-4]", "^ab"})
+	}
+	re := Leaf{Key: "region", Op: pick(r, []string{"=~", "=~", "!~"}), Val: pat, Shape: "^literal..."}
+	sel := Leaf{Key: "host", Op: "=", Val: host}
+	if r.IntN(4) == 0 {
+		sel = Leaf{Key: "host", Op: "=~", Val: regexp.QuoteMeta(host) + "$", Shape: "literal$"}
+		if prom {
+			sel.Val = regexp.QuoteMeta(host)
+		}
+	}
+	leaves := []Leaf{sel, re}
+	order := []int{0, 1}
+	if r.IntN(2) == 0 {
+		order = []int{1, 0}
+	}
+	tree := &Pred{Kind: "and", L: &Pred{Kind: "leaf", Leaf: order[0]}, R: &Pred{Kind: "leaf", Leaf: order[1], Paren: r.IntN(4) == 0}}
+	if r.IntN(3) == 0 {
+		leaves = append(leaves, Leaf{Key: "dc", Op: pick(r, []string{"=", "!="}), Val: pick(r, []string{"east", "west"})})
+		if r.IntN(2) == 0 {
+			tree = &Pred{Kind: "and", L: tree, R: &Pred{Kind: "leaf", Leaf: 2}}
+		} else {
+			tree = &Pred{Kind: "and", L: &Pred{Kind: "leaf", Leaf: 2}, R: tree}
+		}
+	}
+	return leaves, tree
+}
+
+func isPureAnd(p *Pred) bool {
+	if p.Kind == "leaf" {
+		return true
+	}
+	return p.Kind == "and" && isPureAnd(p.L) && isPureAnd(p.R)
 }
 
 // ---------------------------------------------------------------- predicates
